@@ -14,5 +14,7 @@ CONSTANTS
   MsgKinds = {}
   WithCut = TRUE
   WithFormat = TRUE
+  WithOutage = TRUE
+  Retries = 6
 CONSTRAINT Done
 CHECK_DEADLOCK FALSE
